@@ -12,8 +12,8 @@ import (
 
 func init() {
 	register(&propDef{
-		ID:  "C14",
-		Run: ruleC14,
+		ID:          "C14",
+		Run:         ruleC14,
 		Explanation: "Decides, for selective mode, that (R1) the keep-in-clear decision of the scalar step does not read the value: the guard of the selective pass-through consists only of boolean parameters, option globals and the path matcher applied to a key path that carries no input value; the array-sibling test and the search-operator rewrite look at values only through the '$'-string / FieldName-position tests; (R2) the decision sees the whole path: at every call site of a function whose key-path parameter reaches the matcher, the path argument is the caller's own path, append(path, key...) or - only where the path is empty - a one-element fallback; document roots start with the empty path; sub-pipeline restarts are listed exceptions; (R3) the matcher applies the configured regexp to every element of the whole path and the setter compiles the flag value unchanged. NOT decided: which names a given regexp matches; Atlas Search stages (the statement allows over-redaction there).",
 		RuleText:    "obligations = selective pass-through returns (guard atoms), call sites carrying a matcher-reaching key path (about 30), matcher loop shape",
 	})
